@@ -88,6 +88,17 @@ theorem srvInv_step {s : Srv} (h : SrvInv s) (x : SIn) : SrvInv (s.step x) := by
       exact ⟨rfl, (h.done_only hd).2⟩
     · exact h.file
     · exact h.fileUnix
+  | restart =>
+    simp only [Srv.step]
+    split
+    · refine ⟨⟨?_, ?_, ?_, ?_, ?_⟩, ?_⟩
+      · intro _; exact ⟨rfl, rfl, rfl⟩
+      · intro h0; simp at h0
+      · intro h0; simp at h0
+      · intro h0; simp at h0
+      · intro h0; exact h0
+      · intro h0; simp at h0
+    · exact h
 
 theorem srvInv_run : ∀ (ins : List SIn) {s : Srv}, SrvInv s → SrvInv (s.run ins)
   | [], _, h => h
@@ -109,6 +120,7 @@ theorem step_unix (s : Srv) (x : SIn) : (s.step x).unix = s.unix := by
   · rw [settle_unix]; rfl
   · rw [settle_unix]; rfl
   · rw [settle_unix]
+  · split <;> rfl
 
 theorem run_unix : ∀ (ins : List SIn) (s : Srv), (s.run ins).unix = s.unix
   | [], _ => rfl
